@@ -54,7 +54,7 @@ def rule_passthrough(ctx):
         ok = has(f.node, "data.columndata[COLUMN.REF] = data.locus.sequence") and has(f.node, "data.columndata[COLUMN.ALT] = data.locus.alts")
         ctx.check(ok, 'R12.3/ref-alt-passthrough', f.construct('REF/ALT'), "REF = locus.sequence, ALT = locus.alts", "REF/ALT are not passed through from the input record", f.where())
         # missing GT only under NOA/AF0
-        miss = find_all(f.node, "data.sampledata[FORMAT.GT][_s] = np.full(_p, -1, dtype=int)")
+        miss = find_all(f.node, "data.sampledata[FORMAT.GT][_s] = np.full(_p, -1, dtype=np.int64)")
         ok = len(miss) == 1
         if ok:
             guard = [n for n in ast.walk(f.node) if isinstance(n, ast.If) and isinstance(n.test, ast.Name) and miss[0][0] in list(ast.walk(n))]
